@@ -287,6 +287,9 @@ def cases(tier, seed):
     add("polygons_order", case_order_independent(polys[:3]), tiers=Q)
     embeds = [((0, 0, 1), (1, 0, 0), (0, 1, 0), (0, 0, 1)), ((1, 2, 3), (1, 0, 1), (0, 1, 1), (1, 1, -1)), ((0, 0, 0), (0, 1, 0), (0, 0, 1), (1, 0, 0)),
               ((2, -1, 0), (1, 1, 0), (0, 1, 2), (2, -2, 1))]
+    # 3-D polygons take their supporting plane from the first three vertices: lattice polygons starting with three collinear
+    # vertices cannot be constructed in 3-space (LinearDependenceError from the constructor) and are skipped here
+    ok3 = [p for p in polys if _orient(p[0], p[1], p[2]) != 0]
     for j, emb in enumerate(embeds):
-        add(f"polygons3d_embed{j}", mk_polygons(polys[:3] if tier == "quick" else polys[:12], dim=3, embed=emb), tiers=Q, max_paths=600)
+        add(f"polygons3d_embed{j}", mk_polygons(ok3[:3] if tier == "quick" else ok3[:12], dim=3, embed=emb), tiers=Q, max_paths=600)
     return cs
